@@ -35,3 +35,17 @@ package signers
 //@   ghost rewound bool = false
 //@   on call (*os.File).Seek(f, off, whence) ret (n, e): rewound = (e == nil && f == p.f && off == 0 && whence == 0)
 //@   ensures @stream_starts_at_the_beginning_of_the_file_every_time ret1 == nil ==> rewound && ret0 == iface(p.f)
+
+//@ func (*Signer).IsSigned
+//@   property C08
+//@   ghost verr error = nil
+//@   ghost probes int = 0
+//@   before call dynamic .VerifyStream(r, o): assert @probe_reads_the_given_file_without_digests_or_chain r == iface(f) && o.NoDigests && o.NoChain && probes == 0
+//@   before call dynamic .Verify(r, o): assert @probe_reads_the_given_file_without_digests_or_chain r == f && o.NoDigests && o.NoChain && probes == 0
+//@   on call dynamic .VerifyStream(_, _) ret (s, e): verr = e; probes = probes + 1
+//@   on call dynamic .Verify(_, _) ret (s, e): verr = e; probes = probes + 1
+//@   ensures @signed_exactly_when_the_verifier_found_a_signature ret1 == nil && ret0 ==> probes == 1 && (verr == nil || istype(verr, pgptools.ErrNoKey))
+//@   ensures @unsigned_exactly_when_the_verifier_said_not_signed ret1 == nil && !ret0 ==> probes == 1 && istype(verr, sigerrors.NotSignedError)
+//@   ensures @other_failures_are_reported ret1 != nil ==> !ret0 && (probes == 0 || ret1 == verr)
+//@   ensures @a_clean_verification_means_signed probes == 1 && verr == nil ==> ret0 && ret1 == nil
+//@   ensures @not_signed_maps_to_false probes == 1 && istype(verr, sigerrors.NotSignedError) ==> !ret0 && ret1 == nil
